@@ -59,20 +59,20 @@ PROPS = {
     ),
     'C07': dict(
         title='Range, symmetry, identity', level='other',
-        groups=both(['lemmas.range', 'lemmas.symmetry', 'rel_isi.B', 'rel_spike.B', 'rel_sync.B', 'plumb.degenerate']),
+        groups=both(['lemmas.range', 'lemmas.symmetry', 'rel_isi.B', 'rel_spike.B', 'rel_sync.B', 'rel_order.B', 'rel_dir.B', 'plumb.degenerate']),
         technique='lemmas over the spec functions of the kernel contracts + bounded relational (two-run) symbolic execution of the real kernels',
         explanation='ratio in [0,1], window lemmas (L); swap symmetry and identity of the kernels by two-run symbolic execution (bounded); '
                     'SPIKE range [0,1] searched in the same bound (undecided nonlinear queries are reported, not counted)',
     ),
     'C08': dict(
         title='Shift / scale invariance, time-reversal mirror', level='other',
-        groups=both(['mirror_isi.B', 'mirror_spike.B', 'mirror_sync.B', 'mirror_order.B', 'affine_isi.B', 'affine_spike.B', 'affine_sync.B']),
+        groups=both(['mirror_isi.B', 'mirror_spike.B', 'mirror_sync.B', 'mirror_order.B', 'affine_isi.B', 'affine_spike.B', 'affine_sync.B', 'affine_order.B']),
         technique='bounded relational (two-run) symbolic execution of the real kernels on transformed inputs',
         explanation='each kernel is executed symbolically on (s1,s2) and on the transformed trains; outputs are related as the statement says',
     ),
     'C09': dict(
         title='Adding piecewise profiles is pointwise addition', level='other',
-        groups=both(['addpwc_py.P', 'addpwc_pyx.P', 'addpwc_py.B', 'addpwl_py.B', 'addpwl_pyx.B', 'methods.B']),
+        groups=both(['addpwc_py.P', 'addpwc_pyx.P', 'addpwc_py.B', 'addpwl_py.B', 'addpwl_pyx.B', 'pwc_mul.B', 'pwc_copy.B', 'pwc_add_fb.B', 'pwc_add_cy.B', 'pwl_mul.B', 'pwl_copy.B', 'pwl_add_fb.B', 'pwl_add_cy.B', 'disc_mul.B', 'disc_copy.B', 'disc_add_fb.B', 'disc_add_cy.B']),
         technique='inductive VCs for the piecewise-constant merge (py + pyx); bounded symbolic execution for the linear merge and the class methods',
         explanation='add_piece_wise_const proved for all inputs (incl. vectorised tail copies / Cython tail loops); linear merge and the '
                     'add / mul_scalar / copy methods bounded; frame obligations show the operand is not modified',
@@ -118,7 +118,7 @@ PROPS = {
     ),
     'C15': dict(
         title="MRTS only de-emphasises small time scales; 'auto' = pooled ISI threshold", level='other',
-        groups=both(['lemmas.mrts', 'plumb.auto', 'thresh.B', 'mrts_isi.B', 'mrts_spike.B', 'mrts_sync.B']),
+        groups=both(['lemmas.mrts', 'plumb.auto', 'isilen.B', 'thresh.B', 'mrts_isi.B', 'mrts_spike.B', 'mrts_sync.B']),
         technique='scalar lemmas over the spec functions + bounded two-run symbolic execution + wrappers on formal terms',
         explanation='MRTS=0 reduces the specs to the non-adaptive ones, ratio / D non-increasing and window non-decreasing in MRTS (L); '
                     "kernels re-run with two thresholds (bounded); 'auto' is replaced by the pooled threshold of the call's trains on every entry point; "
@@ -126,7 +126,7 @@ PROPS = {
     ),
     'C16': dict(
         title='max_tau is an upper bound on the coincidence window', level='other',
-        groups=both(['get_tau_py.P', 'get_tau_pyx.P', 'lemmas.window', 'sync_py.B', 'order_py.B', 'dir_py.B', 'single_py.B', 'sync_pyx.B']),
+        groups=both(['get_tau_py.P', 'get_tau_pyx.P', 'lemmas.window', 'sync_py.B', 'order_py.B', 'dir_py.B', 'single_py.B', 'sync_pyx.B', 'maxtau_sync.B', 'maxtau_single.B']),
         technique='window routine proved for all inputs (loop-free VCs); scan kernels bounded',
         explanation='get_tau returns the C03 window capped at half the limit it is given (= max_tau); monotone in the limit (L); '
                     'coincident pairs closer than max_tau in every scan kernel (bounded)',
